@@ -8,6 +8,7 @@ unit in the last place of `k·32767` (`repr_gap`), and for every k = 1..127 the 
 to a value above k (kernel-evaluated table `bump_table`).  Hence the new scale is exactly ⌈max/32767⌉.
 -/
 import Sb.Properties.C20Float
+import Sb.Properties.C20Lerp
 
 namespace Sb.C20
 open Sb Sb.Utils Sb.Proofs
